@@ -14,7 +14,7 @@ from datetime import date, datetime, time, timedelta
 from decimal import Decimal
 from typing import Any, Dict, FrozenSet, List, Optional, Set, Tuple, Union
 
-from utype import Field, Rule, Schema
+from utype import Field, Options, Rule, Schema
 from utype.parser.rule import LogicalType
 from vt.values import Color
 
@@ -37,7 +37,15 @@ class TOuter(Schema):
     s: str = Field(max_length=3, default='')
 
 
+class TNoIn(Schema):
+    __options__ = Options(addition=False)
+    title: str
+    stamp: int = Field(no_input=True, default=7)
+    views: int = Field(no_input=True, default_factory=int)
+
+
 DATACLASSES = {
+    'TNoIn': (TNoIn, {'title': ('str',), 'stamp': ('int',), 'views': ('int',)}),
     'TInner': (TInner, {'x': ('rule', ('int',), {'ge': 0}), 'y': ('str',)}),
     'TOuter': (TOuter, {'inner': ('dc', 'TInner'), 'kids': ('list', ('dc', 'TInner')), 'opt': ('opt', ('int',)),
                         'tags': ('set', ('int',)), 'pair': ('tuple', [('int',), ('str',)]), 'm': ('dict', ('str',), ('int',)),
